@@ -1177,6 +1177,9 @@ func determinismSelfTest(b *build, prop, tier string, seed uint64) int {
 		cmd.Env = simEnv("VSIM_MODE=batch", "VSIM_PROP="+prop, "VSIM_TIER="+tier, "VSIM_SEED="+strconv.FormatUint(seed, 10),
 			"VSIM_FROM=0", "VSIM_TO="+strconv.Itoa(n), "VSIM_OUT="+tmp.Name(), "VSIM_KEEP_GOING=1")
 		out, err := cmd.CombinedOutput()
+		if err != nil && strings.HasSuffix(b.bin, "-race.test") && strings.Contains(string(out), "race detected during execution of test") {
+			err = nil // race build: the testing package exits 1 after any detector report (the harness's own included)
+		}
 		if err != nil {
 			fmt.Fprintf(os.Stderr, "selftest worker failed: %v\n%s\n", err, tail(string(out), 3000))
 			os.Remove(tmp.Name())
